@@ -176,20 +176,51 @@ where
         }
         hit
     };
-    let ret = match res {
+    let describe = |res: &std::thread::Result<Completion>, solver: &ParallelSolver<St, RecDD<D>, RecCache<C>>, polls: usize, watchdog: bool, again: bool| match res {
         Ok(c) => {
             let (lb, ub) = (solver.best_lower_bound(), solver.best_upper_bound());
             let g = solver.gap();
-            json!({"ev":"return","panicked":false,"is_exact":c.is_exact,"cval":onum(c.best_value),"best_value":onum(solver.best_value()),
+            json!({"ev":"return","again":again,"panicked":false,"is_exact":c.is_exact,"cval":onum(c.best_value),"best_value":onum(solver.best_value()),
                    "has_value": solver.best_value().is_some(), "best_lb":num(lb),"best_ub":num(ub),"sol":soljson(&solver.best_solution()),
-                   "explored":solver.explored(),"polls":polls,"watchdog":watchdog,"root_in_cutset":rootcs,"cutoff_fired":fired,"sched":sum,
+                   "explored":solver.explored(),"polls":polls,"watchdog":watchdog,"root_in_cutset":rootcs,"cutoff_fired":fired,"sched":sum.clone(),
                    "gap": {"nan": g.is_nan(), "neg": g < 0.0, "zero": g == 0.0, "one": g == 1.0, "le1": g <= 1.0, "text": format!("{g:e}"),
                            "lb": lb.to_string(), "ub": ub.to_string()}})
         }
-        Err(_) => json!({"ev":"return","panicked":true,"is_exact":false,"cval":NEG_INF,"best_value":NEG_INF,"has_value":false,"best_lb":NEG_INF,"best_ub":POS_INF,
-                         "sol":soljson(&None),"explored":0,"polls":polls,"watchdog":watchdog,"root_in_cutset":rootcs,"cutoff_fired":fired,"sched":sum,
+        Err(_) => json!({"ev":"return","again":again,"panicked":true,"is_exact":false,"cval":NEG_INF,"best_value":NEG_INF,"has_value":false,"best_lb":NEG_INF,"best_ub":POS_INF,
+                         "sol":soljson(&None),"explored":0,"polls":polls,"watchdog":watchdog,"root_in_cutset":rootcs,"cutoff_fired":fired,"sched":sum.clone(),
                          "gap":{"nan":false,"neg":false,"zero":false,"one":true,"le1":true,"text":"-","lb":"-","ub":"-"}}),
     };
+    let mut ret = describe(&res, &solver, polls, watchdog, false);
+    // a run that was cut off is asked to go on: maximize() once more on the same solver (free running, the cutoff keeps answering 'stop');
+    // what it reports then must still be sound (C05)
+    if fired && !watchdog && matches!(&res, Ok(c) if !c.is_exact) {
+        install_free_running();
+        stop.store(true, SeqCst);
+        let result2: std::sync::Mutex<Option<std::thread::Result<Completion>>> = std::sync::Mutex::new(None);
+        std::thread::scope(|sc| {
+            let solver_ref = &mut solver;
+            let result2 = &result2;
+            let h = sc.spawn(move || {
+                let c = std::panic::catch_unwind(std::panic::AssertUnwindSafe(|| solver_ref.maximize()));
+                *result2.lock().unwrap() = Some(c);
+            });
+            let t0 = std::time::Instant::now();
+            while !h.is_finished() {
+                std::thread::sleep(std::time::Duration::from_millis(1));
+                if t0.elapsed().as_secs() > 20 {
+                    let mut evs = evs.clone();
+                    evs.push(ret.clone());
+                    on_stuck(evs, json!({"ev":"stuck","verdict":"hang","sched":{"steps":0,"granted":[],"diverged":0,"workers":[]}}));
+                    std::process::exit(3);
+                }
+            }
+            h.join().unwrap();
+        });
+        ddo::verif_hooks::set_callback(None);
+        take_log();
+        let res2 = result2.lock().unwrap().take().unwrap();
+        ret["second"] = describe(&res2, &solver, cutoff.polls.load(SeqCst), cutoff.dog.load(SeqCst), true);
+    }
     (evs, ret)
 }
 
@@ -321,7 +352,12 @@ fn main() {
         } else {
             write_events(&mut w, &evs);
         }
+        let mut ret = ret;
+        let second = ret.as_object_mut().unwrap().remove("second");
         writeln!(w, "{}", ret).unwrap();
+        if let Some(s2) = second {
+            writeln!(w, "{}", s2).unwrap();
+        }
         w.flush().unwrap();
     }
 }
